@@ -40,6 +40,7 @@ func (e *Engine) lemmaTrans(prop string) *fnTrans {
 	t.siteN = map[string]int{}
 	t.assumptions = map[string]bool{}
 	t.usedImpl = map[string]types.Type{}
+	t.usedImmut = map[string]bool{}
 	t.preds = map[int][]int{}
 	t.blk = &ssa.BasicBlock{Index: 0}
 	t.declare("reach_0", "Bool")
@@ -400,4 +401,106 @@ func (t *fnTrans) withLocals(env *Env) *Env {
 	n := *env
 	n.local = le.local
 	return &n
+}
+
+// immutableSweep: fields declared `immutable` may only be written in constructor-like functions
+// (functions that allocate an object of that struct type). Every other write in the loaded
+// repository packages is reported as a failed obligation.
+func (e *Engine) immutableSweep(used map[string]bool, prop string) *fnTrans {
+	t := &fnTrans{eng: e, name: "sweep", vars: map[string]*StateVar{}}
+	t.S = newSorts(false, e.inRepo)
+	checked := 0
+	for _, key := range sortedKeys(used) {
+		var hits []string
+		for path, sp := range e.ssaPkgs {
+			if !e.built[path] {
+				continue
+			}
+			var fns []*ssa.Function
+			var collect func(f *ssa.Function)
+			collect = func(f *ssa.Function) {
+				fns = append(fns, f)
+				for _, a := range f.AnonFuncs {
+					collect(a)
+				}
+			}
+			for _, m := range sp.Members {
+				switch m := m.(type) {
+				case *ssa.Function:
+					collect(m)
+				case *ssa.Type:
+					for _, recv := range []types.Type{m.Type(), types.NewPointer(m.Type())} {
+						ms := e.prog.MethodSets.MethodSet(recv)
+						for i := 0; i < ms.Len(); i++ {
+							if f := e.prog.MethodValue(ms.At(i)); f != nil && f.Pkg == sp {
+								collect(f)
+							}
+						}
+					}
+				}
+			}
+			seen := map[*ssa.Function]bool{}
+			for _, f := range fns {
+				if seen[f] || len(f.Blocks) == 0 {
+					continue
+				}
+				seen[f] = true
+				allocates := map[string]bool{}
+				for _, b := range f.Blocks {
+					for _, in := range b.Instrs {
+						if a, ok := in.(*ssa.Alloc); ok {
+							if n, ok := types.Unalias(a.Type().(*types.Pointer).Elem()).(*types.Named); ok && n.Obj().Pkg() != nil {
+								allocates[n.Obj().Pkg().Path()+"."+n.Obj().Name()] = true
+							}
+						}
+					}
+				}
+				for _, b := range f.Blocks {
+					for _, in := range b.Instrs {
+						st, ok := in.(*ssa.Store)
+						if !ok {
+							continue
+						}
+						fa, ok := st.Addr.(*ssa.FieldAddr)
+						if !ok {
+							continue
+						}
+						pt, ok := fa.X.Type().Underlying().(*types.Pointer)
+						if !ok {
+							continue
+						}
+						n, ok := types.Unalias(pt.Elem()).(*types.Named)
+						if !ok || n.Obj().Pkg() == nil {
+							continue
+						}
+						tk := n.Obj().Pkg().Path() + "." + n.Obj().Name()
+						fname := n.Underlying().(*types.Struct).Field(fa.Field).Name()
+						if tk+"."+fname != key {
+							continue
+						}
+						if allocates[tk] {
+							continue // constructor-like
+						}
+						hits = append(hits, fmt.Sprintf("%s at %s", e.displayName(f), e.fset.Position(st.Pos())))
+					}
+				}
+			}
+		}
+		checked++
+		short := key[strings.LastIndex(key[:strings.LastIndex(key, ".")], "/")+1:]
+		o := &Obligation{Name: "sweep/immutable[" + short + "]", Fn: "sweep", Kind: "sweep", Desc: "field declared immutable is written only by constructors", Props: []string{prop}}
+		if len(hits) == 0 {
+			o.Result, o.Solver = "unsat", "ssa-sweep"
+		} else {
+			sort.Strings(hits)
+			o.Result, o.Solver = "violated", "ssa-sweep"
+			o.Outputs = map[string]string{"ssa-sweep": "writes outside constructors: " + strings.Join(hits, "; ")}
+			o.Desc += ": " + strings.Join(hits, "; ")
+		}
+		t.obls = append(t.obls, o)
+	}
+	if checked == 0 {
+		return nil
+	}
+	return t
 }
